@@ -76,6 +76,8 @@ structure Circuit where
   /-- producers on the red / green input network of each entity (entity indices) -/
   prodR : Array (List Nat)
   prodG : Array (List Nat)
+  /-- entities read through `.output` (chests, tanks, …): their contents are free inputs -/
+  sources : List Nat := []
   deriving Inhabited
 
 /-- Free inputs: an entity listed here emits the given map instead of what its configuration says
